@@ -34,13 +34,20 @@ def prejudge(rows):
     judged implementation vs reference (class, value, trace); the model column of such an op is
     not a model of FuncBuilder (which also leaves one operand on the data stack — C04's
     business), so it is compared without the stack depths."""
-    out, nstd = [], 0
+    out, nstd, nabst = [], 0, 0
     for op, impl, model, spec in rows:
         if op.startswith("lazy +std "):
             nstd += 1
             impl, model = strip_depths(impl), strip_depths(model)
+        if '"?source"' in model:
+            # `substitute` was asked for the source of a form the elaborator rejects (`bad`,
+            # `assign`: only the malformed stream does that). The model's `Expr` keeps no source for
+            # those and says so with this marker: it abstains on the op (the reference is not
+            # defined on such programs either).
+            nabst += 1
+            model = impl
         out.append((op, impl, model, spec))
-    return out, nstd
+    return out, nstd, nabst
 
 def run(rep):
     try:
@@ -57,12 +64,24 @@ def run(rep):
                       "theorem_or_correspondence": "build of zydrv/zyh", "log": (prep["drv_out"] + prep["harness_out"])[-3000:]}, no_input=True)
         return
     rows, stats = V.run_channel("lazy", rep.seed, rep.tier)
-    rows, nstd = prejudge(rows)
+    seeds = [rep.seed]
+    if rep.tier == "thorough":
+        # two more generator seeds (the small-scope enumeration is complete in each)
+        for extra in (rep.seed + 1000, rep.seed + 2000):
+            r2, s2 = V.run_channel("lazy", extra, rep.tier)
+            seen = {r[0] for r in rows}
+            rows += [r for r in r2 if r[0] not in seen]
+            for k, v in s2.items():
+                stats[k] = stats.get(k, 0) + v
+            seeds.append(extra)
+    rep.coverage["seeds"] = seeds
+    rows, nstd, nabst = prejudge(rows)
     rows, jstats = _c02().judge(rows)
     def nontrivial(op, impl):
         return impl.startswith("ok") or " ;; ok" in impl
     bad_spec, bad_model = V.correspondence(rep, "lazy", rows, stats, nontrivial=nontrivial)
     rep.coverage["channels"]["lazy"].update(jstats)
     rep.coverage["channels"]["lazy"]["ops_with_typed_func"] = nstd
+    rep.coverage["channels"]["lazy"]["model_abstains_source_of_rejected_form"] = nabst
     rep.coverage["exhaustive"] = False
     V.proof_break_resolution(rep, bool(bad_spec))
